@@ -18,6 +18,7 @@ type C06Case struct {
 	Case     *CheckCase `json:"case"`
 	NameRaw  []byte     `json:"name_raw"` // TB name (arbitrary bytes)
 	ViaFlag  bool       `json:"via_flag,omitempty"`
+	Renamed  string     `json:"renamed,omitempty"`  // via flag: the file was copied to this name first (attached to a bug report, say); relative path
 	LongLine int        `json:"longline,omitempty"` // longest output line requested (bytes)
 	Stale    int        `json:"stale,omitempty"`    // fail files of earlier failures (all-zero words of various lengths) already present
 }
@@ -58,6 +59,9 @@ func (c06) Gen(dt *drv.T, c *Ctx) any {
 	cs := &C06Case{Case: &CheckCase{}}
 	cs.NameRaw = genName(dt)
 	cs.ViaFlag = chance(dt, "viaflag", 30)
+	if cs.ViaFlag && drv.Bool().Draw(dt, "renamed") {
+		cs.Renamed = pick(dt, "newname", "repro.fail", "issue-1234 repro.fail", "TestOther-20240101000000-1.fail", "failing-case.txt", "x")
+	}
 	if chance(dt, "stale", 30) {
 		cs.Stale = drv.IntRange(1, 3).Draw(dt, "nstale")
 	}
@@ -204,6 +208,12 @@ func (c06) Run(c *Ctx, csAny any) Outcome {
 		_ = os.Chdir(other)
 		cfg2.FailFile = abs
 		out.Classes = append(out.Classes, "via-flag")
+		if cs.Renamed != "" {
+			if b, err := os.ReadFile(abs); err == nil && os.WriteFile(cs.Renamed, b, 0o664) == nil {
+				cfg2.FailFile = cs.Renamed // relative to the working directory
+				out.Classes = append(out.Classes, "via-flag-renamed-copy")
+			}
+		}
 	} else {
 		out.Classes = append(out.Classes, "auto-discovery")
 	}
